@@ -23,6 +23,9 @@ def install(R):
         directory whose name matches the template; its length is CountBatches / CountResults of the current file system."""
         pat = args[0]
         st = fr.st
+        rg = R.symbols.get("rg_before")
+        if rg is not None:
+            rg(eng, fr, node)
         pv = z3.simplify(eng.as_V(pat))
         loc, which = None, None
         mod = eng.repo.module("xyzpy/gen/cropping.py")
@@ -56,6 +59,10 @@ def install(R):
         pth = pathf(eng, fr, mk_V(loc), mk_int(b2)).t
         st.assume(z3.ForAll([b2], z3.Implies(z3.And(b2 >= 1, z3.Select(st.ghost["FS_ex"].t, pth)), T.sin(G, pth)), patterns=[T.sin(G, pth)]))
         st.env["__globbed__"] = SV("V", G, meta={"seq": True})
+        k3 = z3.Int(fresh_name("k"))
+        st.events.append(Event("fs", "glob", [pat], {}, getattr(node, "lineno", None),
+                               extra={"all_complete": z3.ForAll([k3], z3.Implies(z3.And(0 <= k3, k3 < T.slen(G)), z3.Select(st.ghost["FS_ok"].t, T.sget(G, k3))),
+                                                                patterns=[T.sget(G, k3)])}))
         st.assumed.append("glob.glob over a crop directory: duplicate-free list of the visible matching files")
         return [Outcome("normal", st, val=SV("V", G, meta={"seq": True}))]
     R.externals["glob.glob"] = ext_glob
